@@ -46,33 +46,50 @@ theorem manOf_set (m : RaftStore) (s : Snap) (es : List Entry) (h0 : s.index ≠
 
 /-! ### the three parts of `saveOp.apply` on corresponding states -/
 
-theorem applySnap_canon (m : RaftStore) (h : RInv m) (x : Meta) (mt : Option Meta) (ak : Nat)
-    (hs0 : Hard) (s : Snap) (allow : Bool) (hv : validSnap m s = true) :
-    applySnap (durOf m mt ak) (cacheOf m x) hs0 s allow =
-      .ok (durOf { m with snapshot := s, entries := trimAfter m.entries s.index } mt ak,
-           cacheOf { m with snapshot := s, entries := trimAfter m.entries s.index } { x with first := s.index + 1 },
-           if hs0.commit < s.index then { hs0 with commit := s.index } else hs0) := by
+theorem snapCheck_valid (m : RaftStore) (x : Meta) (s : Snap) (allow : Bool) (hv : validSnap m s = true) :
+    snapCheck (cacheOf m x) s allow = none ∧ s.index ≠ 0 ∧ s.index < maxU64 := by
   simp only [validSnap, Bool.and_eq_true, Bool.or_eq_true, decide_eq_true_eq] at hv
   obtain ⟨⟨⟨hidx, hmax⟩, hterm⟩, hcanon⟩ := hv
   have hs0' : s.index ≠ 0 := by
     rcases hidx with hlt | ⟨hne, _⟩
     · omega
     · simpa using hne
-  have hchk : snapCheck (cacheOf m x) s allow = none := by
-    unfold snapCheck
-    have c1 : ¬ s.index < (cacheOf m x).snapIndex := by
-      simp only [cacheOf]
-      rcases hidx with hlt | ⟨_, heq⟩
-      · omega
-      · have := canonical_of_eq heq; subst this; omega
-    rw [if_neg c1]
-    apply if_neg
-    rintro ⟨he, hm, _⟩
-    simp only [cacheOf] at he hm
+  refine ⟨?_, hs0', hmax⟩
+  unfold snapCheck
+  have c1 : ¬ s.index < (cacheOf m x).snapIndex := by
+    simp only [cacheOf]
     rcases hidx with hlt | ⟨_, heq⟩
     · omega
-    · have := canonical_of_eq heq; subst this
-      simp [manOf, hs0', manifestEquivalent] at hm
+    · have := canonical_of_eq heq; subst this; omega
+  rw [if_neg c1]
+  apply if_neg
+  rintro ⟨he, hm, _⟩
+  simp only [cacheOf] at he hm
+  rcases hidx with hlt | ⟨_, heq⟩
+  · omega
+  · have := canonical_of_eq heq; subst this
+    simp [manOf, hs0', manifestEquivalent] at hm
+
+theorem snapCheck_replace (m : RaftStore) (x : Meta) (hap : x.applied = m.applied) (s : Snap)
+    (hle : m.snapshot.index ≤ s.index) (happ : s.index = m.applied) :
+    snapCheck (cacheOf m x) s true = none := by
+  unfold snapCheck
+  have c1 : ¬ s.index < (cacheOf m x).snapIndex := by simp only [cacheOf]; omega
+  rw [if_neg c1]
+  apply if_neg
+  rintro ⟨_, _, h3⟩
+  simp only [cacheOf] at h3
+  rcases h3 with h3 | h3
+  · cases h3
+  · omega
+
+theorem applySnap_canon (m : RaftStore) (x : Meta) (mt : Option Meta) (ak : Nat)
+    (hs0 : Hard) (s : Snap) (allow : Bool) (hchk : snapCheck (cacheOf m x) s allow = none)
+    (hs0' : s.index ≠ 0) (hmax : s.index < maxU64) :
+    applySnap (durOf m mt ak) (cacheOf m x) hs0 s allow =
+      .ok (durOf { m with snapshot := s, entries := trimAfter m.entries s.index } mt ak,
+           cacheOf { m with snapshot := s, entries := trimAfter m.entries s.index } { x with first := s.index + 1 },
+           if hs0.commit < s.index then { hs0 with commit := s.index } else hs0) := by
   unfold applySnap
   rw [hchk]
   simp only [hmax, if_true]
@@ -86,7 +103,9 @@ theorem applySnap_canon (m : RaftStore) (h : RInv m) (x : Meta) (mt : Option Met
 
 theorem meta_first_self (x : Meta) : { x with first := x.first } = x := rfl
 
-theorem applyEnts_canon (m : RaftStore) (h : RInv m) (x : Meta) (hx : MetaOK m x) (mt : Option Meta) (ak : Nat)
+theorem applyEnts_canon (m : RaftStore) (h : RInv m) (x : Meta) (hxf : x.first = m.snapshot.index + 1)
+    (hxl : x.last = m.snapshot.index + m.entries.length ∨ (x.last ≤ m.snapshot.index ∧ m.entries = []))
+    (mt : Option Meta) (ak : Nat)
     (ents : List Entry) (hv : validEnts m ents = true) :
     applyEnts (durOf m mt ak) (cacheOf m x) ents = (durOf (setEnts m ents) mt ak, cacheOf (setEnts m ents) x) := by
   cases ents with
@@ -100,8 +119,10 @@ theorem applyEnts_canon (m : RaftStore) (h : RInv m) (x : Meta) (hx : MetaOK m x
       split
       · rename_i hcond
         have : e.index = x.first := by
-          have := hx.first; have := hx.last
-          rcases hcond with h1 | h1 <;> omega
+          rcases hxl with hl | ⟨hl, hnil⟩
+          · rcases hcond with h1 | h1 <;> omega
+          · rw [hnil] at hhi; simp only [List.length_nil] at hhi
+            rcases hcond with h1 | h1 <;> omega
         rw [this]
       · rfl
     have hk : (m.entries.take (e.index - (m.snapshot.index + 1))) ++ (e :: es)
@@ -119,8 +140,9 @@ theorem applyEnts_canon (m : RaftStore) (h : RInv m) (x : Meta) (hx : MetaOK m x
         split
         · exact filter_lt_eq_take _ _ _ h.consec
         · rename_i hgt
-          have := hx.last
-          rw [List.take_of_length_le (by omega)]
+          rcases hxl with hl | ⟨hl, hnil⟩
+          · rw [List.take_of_length_le (by omega)]
+          · rw [hnil]; simp
       rw [hbase, upsert_fold_append e.index (e :: es) _ hc hall, hk]
     have hcache : replaceCached (m.entries.map stripEntry) e.index (e :: es)
         = (replaceFrom m.entries e.index (e :: es)).map stripEntry := by
@@ -134,7 +156,8 @@ theorem getLast_strip (es : List Entry) :
     (es.map stripEntry).getLast? = es.getLast?.map stripEntry := by
   simp [List.getLast?_map]
 
-theorem applyFinish_canon (m : RaftStore) (h : RInv m) (x : Meta) (hx : MetaOK m x) (mt : Option Meta) (ak : Nat)
+theorem applyFinish_canon (m : RaftStore) (h : RInv m) (x : Meta) (hf : x.first = m.snapshot.index + 1)
+    (hap : x.applied = m.applied) (mt : Option Meta) (ak : Nat)
     (hs1 : Hard) (persist : Bool) (hp : persist = false → hs1 = m.hard) (conf : Conf)
     (hconf : RaftStore.conf { m with hard := hs1 } = some conf) :
     applyFinish (durOf m mt ak) (cacheOf m x) hs1 persist =
@@ -154,8 +177,6 @@ theorem applyFinish_canon (m : RaftStore) (h : RInv m) (x : Meta) (hx : MetaOK m
     cases persist with
     | true => rfl
     | false => simp [durOf, hp rfl]
-  have hf := hx.first
-  have hap := hx.applied
   have hsettle : settleFirst
         { x with snapIndex := m.snapshot.index, snapTerm := m.snapshot.term, conf := conf, last := m.snapshot.index + m.entries.length }
         m.snapshot.index (m.entries.map stripEntry)
